@@ -241,6 +241,7 @@ PROPS["S-core-alloc"] = {"title": "scratch: core[half,alloc]", "groups": [core([
 PROPS["S-core-std"] = {"title": "scratch: core[half,std]", "groups": [core(["zz_"], features=("half", "std"))]}
 PROPS["S-core-none"] = {"title": "scratch: core[]", "groups": [core(["zz_"], features=())]}
 PROPS["S-io"] = {"title": "scratch: io", "groups": [io(["zz_"])]}
+PROPS["S-serde-alloc"] = {"title": "scratch: serde alloc", "groups": [serde(["zz_"], features=("half", "alloc"))]}
 PROPS["S-serde"] = {"title": "scratch: serde", "groups": [serde(["zz_"])]}
 PROPS["S-derive"] = {"title": "scratch: derive", "groups": [derive(["zz_"])]}
 
